@@ -214,6 +214,8 @@ def units(tier):
             us.append(("unit_predict", (m, s, "shift")))
     if tier == "thorough":
         us.append(("unit_lean", ()))
+    if tier == "quick":
+        us += [("unit_rate", (m, (1,) * 6, "scale", [1, 2, 2, 3, 3, 3])) for m in extract.MODELS if m in SCALE_RATE] + [("unit_rate", (m, (1,) * 6, "shift", [1, 2, 2, 3, 3, 3])) for m in extract.MODELS] + [("unit_predict", (m, (1,) * 6, "scale")) for m in extract.MODELS]
     return us
 
 
